@@ -24,6 +24,7 @@ RULE = (
     "hierarchical ids of the recursive walk, each once, with the right parent and the inner edges of every instance. "
     "Non-trivial: the graph has >= 1 nested graph or gate; distinct = (program shape); states counted separately."
     ' Also: Mermaid declarations counted (no node declared twice); directed shapes: a value name private to one container and exposed by a sibling next to an output whose name contains it; names whose glued diagram ids collide.'
+    ' Directed: a value private to a nested graph whose name is also a plain input of the enclosing graph.'
 )
 ASSUMPTIONS = [
     "edges whose endpoint is hidden in a state are ignored on the drawn side (inputs owned by a collapsed container are declared but hidden by design)",
